@@ -44,6 +44,7 @@ type Harness struct {
 	Inconc      map[string]int
 	FnSteps     map[string]int64
 	Stubs       map[string]int
+	Asserts     map[string]int
 	EndMsgs     map[string]int
 	MaxDec      int
 	budgetHit   bool
@@ -78,22 +79,24 @@ type Engine struct {
 	rtErrT    types.Type
 	injected  map[string]uint64 // "pkgpath.Name" -> value for denied-init packages
 
-	mu          sync.Mutex
-	cond        *sync.Cond
-	queued      int
-	rr          int
-	outstanding int
-	solverStats SolverStats
-	nworkers    int
-	seed        int64
-	fnCache     sync.Map
-	quiet       bool
-	deadline    time.Time
-	noMerge     bool
-	nStates     uint64
-	airIDs      []uint64
-	merges      atomic.Int64
-	mergeAborts atomic.Int64
+	mu           sync.Mutex
+	cond         *sync.Cond
+	queued       int
+	rr           int
+	outstanding  int
+	solverStats  SolverStats
+	nworkers     int
+	seed         int64
+	fnCache      sync.Map
+	quiet        bool
+	deadline     time.Time
+	staticLabels map[string]bool
+	filtered     bool
+	noMerge      bool
+	nStates      uint64
+	airIDs       []uint64
+	merges       atomic.Int64
+	mergeAborts  atomic.Int64
 }
 
 func (eng *Engine) fnByName(pkg, name string) *ssa.Function {
@@ -194,8 +197,12 @@ type LoadConfig struct {
 	Run        *regexp.Regexp
 }
 
+var assertLabelRe = regexp.MustCompile(`(?m)vp\.Assert\(.*,\s*"([^"]*)"\)\s*$`)
+
 func (eng *Engine) Load(cfg LoadConfig) error {
 	overlay := map[string][]byte{}
+	eng.staticLabels = map[string]bool{}
+	eng.filtered = cfg.Run != nil
 	pkgDirs := map[string]bool{}
 	propTag := strings.ToLower(cfg.Prop)
 	err := filepath.Walk(cfg.HarnessDir, func(p string, info os.FileInfo, err error) error {
@@ -220,6 +227,11 @@ func (eng *Engine) Load(cfg LoadConfig) error {
 		overlay[filepath.Join(cfg.Repo, rel)] = data
 		if !isVP && strings.HasPrefix(base, "zz_verif_"+propTag) {
 			pkgDirs[dir] = true
+			// literal assertion labels of this property's harness files (vacuity
+			// report: a label no path ever evaluated)
+			for _, m := range assertLabelRe.FindAllSubmatch(data, -1) {
+				eng.staticLabels[string(m[1])] = true
+			}
 		}
 		return nil
 	})
@@ -298,7 +310,7 @@ func (eng *Engine) Load(cfg LoadConfig) error {
 			}
 			eng.harnesses = append(eng.harnesses, &Harness{Name: name, Pkg: p.PkgPath, Prop: cfg.Prop, fn: sp.Func(name),
 				Paths: map[string]int{}, Undisch: map[string]int{}, BoundCuts: map[string]int{}, violKeys: map[string]bool{},
-				Covers: map[string]*Witness{}, Inconc: map[string]int{}, FnSteps: map[string]int64{}, Stubs: map[string]int{}, EndMsgs: map[string]int{}})
+				Covers: map[string]*Witness{}, Inconc: map[string]int{}, FnSteps: map[string]int64{}, Stubs: map[string]int{}, Asserts: map[string]int{}, EndMsgs: map[string]int{}})
 		}
 	}
 	if len(eng.harnesses) == 0 {
@@ -459,6 +471,9 @@ func (eng *Engine) Explore() {
 				}
 				for f, n := range res.FnSteps {
 					h.FnSteps[f.String()] += n
+				}
+				for a, n := range res.Asserts {
+					h.Asserts[a] += n
 				}
 				for s, n := range res.Stubs {
 					h.Stubs[s] += n
